@@ -121,7 +121,8 @@ func pure(x ast.Expr) bool {
 
 var timeFuncs = map[string]string{"Now": "Now", "After": "After", "Sleep": "Sleep", "NewTimer": "NewTimer",
 	"AfterFunc": "AfterFunc", "Since": "Since", "Until": "Until", "NewTicker": "NewTicker"}
-var ctxFuncs = map[string]string{"WithCancel": "WithCancel", "WithTimeout": "WithTimeout", "WithDeadline": "WithDeadline"}
+var ctxFuncs = map[string]string{"WithCancel": "WithCancel", "WithTimeout": "WithTimeout", "WithDeadline": "WithDeadline",
+	"WithCancelCause": "WithCancelCause", "Cause": "Cause", "WithoutCancel": "WithoutCancel", "AfterFunc": "ContextAfterFunc"}
 
 func (r *rewriter) pre(c *astutil.Cursor) bool {
 	switch n := c.Node().(type) {
@@ -192,7 +193,7 @@ func (r *rewriter) post(c *astutil.Cursor) bool {
 			if to, ok := ctxFuncs[n.Sel.Name]; ok {
 				r.usedRT = true
 				c.Replace(rtSel(to))
-			} else if n.Sel.Name == "AfterFunc" || n.Sel.Name == "WithCancelCause" || n.Sel.Name == "WithoutCancel" {
+			} else if n.Sel.Name == "WithDeadlineCause" || n.Sel.Name == "WithTimeoutCause" {
 				r.errorf(n, "context.%s is not supported by the runtime", n.Sel.Name)
 			}
 		case "reflect":
